@@ -30,6 +30,27 @@ def array_len(ty):
     return None
 
 
+def term_array_len(W, ev, t):
+    """Length of a fixed-size array denoted by a place term (through its declared field type), else None."""
+    n = array_len(ev.tty.get(t)) if ev is not None else None
+    if n is not None:
+        return n
+    if isinstance(t, tuple) and t and t[0] == "field" and isinstance(t[1], tuple) and t[1][0] == "param":
+        f = W.prog.fns.get(t[1][1])
+        if f is not None:
+            ty = f.locals[t[1][2]]["ty"].replace("&mut ", "").replace("&", "")
+            adt = W.prog.adts.get(ty)
+            if adt is not None:
+                for fld in adt["variants"][0]["fields"]:
+                    if fld["name"] == t[2]:
+                        return array_len(fld["ty"])
+    if isinstance(t, tuple) and t and t[0] == "obj":
+        f = W.prog.fns.get(t[1])
+        if f is not None:
+            return array_len(f.locals[t[2]]["ty"])
+    return None
+
+
 def value_preserving_cast(frm, to):
     """Casts that never change the mathematical value."""
     if frm == to:
@@ -49,6 +70,7 @@ class Bounds:
         self.IN = IN if IN is not None else flow.must_facts(fn, ev)
         self.pre = pre or {}
         self.axioms = []      # relational facts that always hold: (op, a, b)
+        self.field_min_len = {}   # (adt, field) -> min length invariant
         self._closure = {}
         self._corr = {}
 
@@ -118,6 +140,26 @@ class Bounds:
 
         if k == "len":
             lo, hi = max(lo, 0), min(hi, ISIZE_MAX)
+            base = a[1]
+            if isinstance(base, tuple) and base[0] == "field" and isinstance(base[1], tuple) and base[1][0] == "param":
+                f = self.W.prog.fns.get(base[1][1])
+                if f is not None and f.impl_self and (f.impl_self, base[2]) in self.field_min_len:
+                    lo = max(lo, self.field_min_len[(f.impl_self, base[2])])
+        elif k == "field" and a[2] == "0" and isinstance(a[1], tuple) and a[1][0] == "vfield":
+            src = a[1][1]
+            # byte count returned by recv_from / read into a buffer: at most the buffer length
+            if isinstance(src, tuple) and src[0] == "call" and values.strip_generics(src[1]).split("::")[-1] in ("recv_from", "recv", "peek_from"):
+                sf = self.W.prog.fns.get(src[3][0])
+                if sf is not None:
+                    n = array_len(sf.blocks[src[3][1]].term["arg_tys"][1])
+                    if n is None and len(src[2]) > 1:
+                        n = term_array_len(self.W, self.ev, src[2][1])
+                    lo = max(lo, 0)
+                    if n is not None:
+                        hi = min(hi, n)
+            # index produced by enumerate() over a slice
+            if isinstance(src, tuple) and src[0] == "call" and values.strip_generics(src[1]).split("::")[-1] == "next" and "Enumerate" in src[1]:
+                lo, hi = max(lo, 0), min(hi, ISIZE_MAX - 1)
         elif k == "cast":
             r2 = ty_range(a[2])
             if r2:
@@ -212,6 +254,10 @@ class Bounds:
                         if s[0] is None:
                             extra_edges.append(("Eq", a, ("bin", "Sub", rng[2][1], ("int", s[1]))))
                             work.extend(x for x in self._atoms_of([rng[2][1]]) if x not in work)
+            if a[0] == "call" and values.strip_generics(a[1]).split("::")[-1] == "min" and len(a[2]) == 2:
+                for x in a[2]:
+                    extra_edges.append(("Le", a, x))
+                    work.extend(y for y in self._atoms_of([x]) if y not in work)
             if a[0] == "cast" and a[1] in UNSIGNED and a[2] in UNSIGNED:
                 extra_edges.append(("Le", a, a[3]))
                 work.extend(x for x in self._atoms_of([a[3]]) if x not in work)
